@@ -14,7 +14,11 @@ from . import convo, simnet
 def cases(res):
     for name, (role, steps) in convo.corpus().items():
         for k, step in enumerate(steps):
-            if step[0] != 'user':
+            # local steps always write; a burst of the peer makes the provider write when it contains
+            # something to be answered by an A-ABORT (the invalid-PDU conversations)
+            if step[0] not in ('user', 'peer'):
+                continue
+            if step[0] == 'peer' and not name.startswith(('A12', 'A13', 'A14', 'R8')):
                 continue
             for err in (BrokenPipeError, ConnectionResetError):
                 case = {'kind': 'send-fails', 'scenario': name, 'point': [k, 0], 'error': err.__name__}
@@ -35,7 +39,8 @@ def cases(res):
                 res.evaluations += 1
                 res.distinct.add('send-fails|%s|%d|%s' % (name, k, err.__name__))
                 res.count('oracle.send-failure')
-                where = '%s: %s on the write of local step %d (%s)' % (name, err.__name__, k, step[1])
+                where = '%s: %s on the write of step %d (%s)' % (
+                    name, err.__name__, k, step[1] if step[0] == 'user' else 'answer to the peer\'s burst')
                 if sim.outcome != 'end-of-script':
                     key = {'raised': 'loop-died', 'blocked': 'blocking-recv',
                            'budget': 'spinning'}.get(sim.outcome, 'run-' + str(sim.outcome))
@@ -48,6 +53,13 @@ def cases(res):
                                   '%s: final state Sta%d, closed=%r' % (where, sim.state() + 1,
                                                                         sim.all_closed()), case)
                 kinds = [i[0] for i in sim.indications]
+                if kinds.count('A-ABORT') > 1:
+                    res.violation('user-told-twice:send-fails', 'C13.send-failure',
+                                  '%s: the association was reported aborted %d times: %r' % (
+                                      where, kinds.count('A-ABORT'), kinds), case)
+                if sim.state() == 0 and sim.timer_running:
+                    res.violation('timer-left-running:send-fails', 'C13.send-failure',
+                                  '%s: idle again, ARTIM still running' % where, case)
                 user_syms = [s[1] for s in part if s[0] == 'user']
                 told_start = role == 'requestor' or 'A-ASSOCIATE-RQ' in kinds
                 user_ended = any(s in ('uRJ', 'uABORT') for s in user_syms) or \
